@@ -3,8 +3,12 @@
    every directive carries its line and the list of files it resolves to (one for a plain
    include; the sorted matches minus the including file for a glob; path resolution and glob
    matching themselves are performed by the real code and checked through the tie).
-   State threaded through one load: the visited set (never un-marked) and the loader cache
-   (file -> version and directives of the journal parsed at caching time). *)
+   State threaded through one load: the inclusion stack, the visited set and the loader cache
+   (file -> version and directives of the journal parsed at caching time).
+   Follows the loader as repaired in /repo (01b2939: a cache hit follows the cached journal's
+   includes; and the repair of C10: a file reached again off the inclusion path is skipped
+   without error, the depth limit counts the files on the inclusion path and is reported on the
+   directive). *)
 From HL Require Import Lib.Bytes.
 Open Scope N_scope.
 
@@ -38,7 +42,9 @@ Record lerr := mkErr { e_kind : ekind; e_target : N; e_line : N }.
 
 Record limits := mkLim { max_size : N; max_depth : N }.
 
-Record lstate := mkLS { visited : list N; cache : list (N * file) }.
+(* stack: the files whose includes are being followed (Go: visited[path] == true);
+   visited: every file marked so far, on the stack or done (Go: the keys of the visited map) *)
+Record lstate := mkLS { stack : list N; visited : list N; cache : list (N * file) }.
 
 (* result of a load: FileOrder, Files (file -> version of the journal object) *)
 Record lresult := mkRes { r_order : list N; r_files : list (N * N) }.
@@ -49,91 +55,104 @@ Definition files_put (k v : N) (m : list (N * N)) : list (N * N) :=
 Definition files_copy (dst src : list (N * N)) : list (N * N) :=
   fold_right (fun kv acc => files_put (fst kv) (snd kv) acc) dst src.
 
+(* result.Files[q] = journal; FileOrder += q; maps.Copy(Files, sub.Files); FileOrder += sub.FileOrder *)
+Definition merge_res (res : lresult) (q v : N) (sr : lresult) : lresult :=
+  mkRes (r_order res ++ q :: r_order sr) (files_copy (files_put q v (r_files res)) (r_files sr)).
+
 (* cache-hit events of a load, for the C11 classifiers: (file, cached journal has includes) *)
 Definition hit := (N * bool)%type.
 
+(* resolveIncludes always returns a result *)
+Record wout := mkW { w_res : lresult; w_errs : list lerr; w_st : lstate; w_hits : list hit;
+                     w_seen : list N (* every target examined, in order *) }.
 Record lout := mkOut { o_res : option lresult; o_errs : list lerr; o_st : lstate; o_hits : list hit;
-                       o_seen : list N (* every target examined, in order *) }.
+                       o_seen : list N }.
 
 Definition nodirs (f : file) : bool := match f_dirs f with [] => true | _ => false end.
 
+Definition recT := N -> list directive -> lstate -> option wout.
+
+(* the loop of resolveIncludes over all (line, target) pairs in directive order, each handled by
+   loadSingleInclude; `rec` follows the includes of one included file *)
+Fixpoint go_items (rec : recT) (fs : fsys) (L : limits) (items : list (N * option N))
+    (res : lresult) (errs : list lerr) (st : lstate) (hits : list hit) (seen : list N) : option wout :=
+  match items with
+  | [] => Some (mkW res errs st hits seen)
+  | (line, None) :: rest =>
+      (* a glob without match is one error *)
+      go_items rec fs L rest res (errs ++ [mkErr ENotFound 999999 line]) st hits seen
+  | (line, Some q) :: rest =>
+      if memN q (stack st)
+      then (* q is being included right now: a cycle *)
+           go_items rec fs L rest res (errs ++ [mkErr ECycle q line]) st hits (seen ++ [q])
+      else if memN q (visited st)
+      then (* already loaded through another include: part of the result once, no error *)
+           go_items rec fs L rest res errs st hits (seen ++ [q])
+      else if max_depth L <=? N.of_nat (length (stack st))
+      then go_items rec fs L rest res (errs ++ [mkErr ETooDeep q line]) st hits (seen ++ [q])
+      else match flookup q (cache st) with
+           | Some cf =>
+               (* the cache saves reading and parsing; the cached journal's own includes are
+                  followed like those of a file read from disk *)
+               match rec q (f_dirs cf) st with
+               | None => None
+               | Some sub =>
+                   go_items rec fs L rest (merge_res res q (f_version cf) (w_res sub))
+                            (errs ++ w_errs sub) (w_st sub)
+                            (hits ++ (q, negb (nodirs cf)) :: w_hits sub) (seen ++ q :: w_seen sub)
+               end
+           | None =>
+               match flookup q fs with
+               | None => go_items rec fs L rest res (errs ++ [mkErr ENotFound q line]) st hits (seen ++ [q])
+               | Some f =>
+                   if max_size L <? f_size f
+                   then go_items rec fs L rest res (errs ++ [mkErr ETooLarge q line]) st hits (seen ++ [q])
+                   else match rec q (f_dirs f) st with
+                        | None => None
+                        | Some sub =>
+                            let st' := mkLS (stack (w_st sub)) (visited (w_st sub)) ((q, f) :: cache (w_st sub)) in
+                            go_items rec fs L rest (merge_res res q (f_version f) (w_res sub))
+                                     (errs ++ w_errs sub) st' (hits ++ w_hits sub) (seen ++ q :: w_seen sub)
+                        end
+               end
+           end
+  end.
+
+(* resolveIncludes(path, journal, visited): mark the file as being included, follow its includes,
+   un-mark it (deferred visited[path] = false: it stays in the map as done).  None = out of fuel. *)
 Fixpoint load_wc (fuel : nat) (fs : fsys) (L : limits) (p : N) (dirs : list directive) (st : lstate)
-  : option lout :=
+  : option wout :=
   match fuel with
   | O => None
   | S fuel' =>
-      if max_depth L <=? N.of_nat (length (visited st))
-      then Some (mkOut None [mkErr ETooDeep p 0] st [] [])
-      else
-        let st := mkLS (p :: visited st) (cache st) in
-        (* all (line, target) pairs in directive order; a glob without match is one error *)
-        (fix go (items : list (N * option N)) (res : lresult) (errs : list lerr) (st : lstate)
-                (hits : list hit) (seen : list N) {struct items} : option lout :=
-           match items with
-           | [] => Some (mkOut (Some res) errs st hits seen)
-           | (line, None) :: rest =>
-               go rest res (errs ++ [mkErr ENotFound 999999 line]) st hits seen
-           | (line, Some q) :: rest =>
-               if memN q (visited st)
-               then go rest res (errs ++ [mkErr ECycle q line]) st hits (seen ++ [q])
-               else match flookup q (cache st) with
-                    | Some cf =>
-                        (* the cache saves reading and parsing; the cached journal's own includes are
-                           followed like those of a file read from disk (depth check, visited mark) *)
-                        match load_wc fuel' fs L q (f_dirs cf) st with
-                        | None => None
-                        | Some sub =>
-                            let hits' := hits ++ (q, negb (nodirs cf)) :: o_hits sub in
-                            match o_res sub with
-                            | Some sr =>
-                                go rest
-                                   (mkRes (r_order res ++ q :: r_order sr)
-                                          (files_copy (files_put q (f_version cf) (r_files res)) (r_files sr)))
-                                   (errs ++ o_errs sub) (o_st sub) hits' (seen ++ q :: o_seen sub)
-                            | None => go rest res (errs ++ o_errs sub) (o_st sub) hits' (seen ++ q :: o_seen sub)
-                            end
-                        end
-                    | None =>
-                        match flookup q fs with
-                        | None => go rest res (errs ++ [mkErr ENotFound q line]) st hits (seen ++ [q])
-                        | Some f =>
-                            if max_size L <? f_size f
-                            then go rest res (errs ++ [mkErr ETooLarge q line]) st hits (seen ++ [q])
-                            else match load_wc fuel' fs L q (f_dirs f) st with
-                                 | None => None
-                                 | Some sub =>
-                                     match o_res sub with
-                                     | Some sr =>
-                                         let st' := mkLS (visited (o_st sub)) ((q, f) :: cache (o_st sub)) in
-                                         go rest
-                                            (mkRes (r_order res ++ q :: r_order sr)
-                                                   (files_copy (files_put q (f_version f) (r_files res)) (r_files sr)))
-                                            (errs ++ o_errs sub) st' (hits ++ o_hits sub) (seen ++ q :: o_seen sub)
-                                     | None =>
-                                         go rest res (errs ++ o_errs sub) (o_st sub) (hits ++ o_hits sub)
-                                            (seen ++ q :: o_seen sub)
-                                     end
-                                 end
-                        end
-                    end
-           end)
-          (dir_items fs dirs)
-          (mkRes [] []) [] st [] []
+      match go_items (load_wc fuel' fs L) fs L (dir_items fs dirs) (mkRes [] []) []
+                     (mkLS (p :: stack st) (p :: visited st) (cache st)) [] [] with
+      | None => None
+      | Some o => Some (mkW (w_res o) (w_errs o) (mkLS (stack st) (visited (w_st o)) (cache (w_st o)))
+                            (w_hits o) (w_seen o))
+      end
   end.
 
 Definition fuel_for (fs : fsys) : nat := S (S (length fs)).
 
-(* Loader.Load(path): stat, size check, read, loadWithContent with a fresh visited set.
-   LoadFromContent(path, content) is the same with the content given (root_override). *)
+(* Loader.Load(path): stat, size check, read, loadWithContent with a fresh visited map.
+   LoadFromContent(path, content) is the same with the content given (root_override).
+   loadWithContent's own depth test sees an empty inclusion path here (limits are normalised to
+   positive values by SetLimits, so it never fires). *)
 Definition load_root (fs : fsys) (L : limits) (cache0 : list (N * file)) (root : N) (override : option file)
   : option lout :=
   let rf := match override with Some f => Some f | None => flookup root fs end in
   match rf with
-  | None => Some (mkOut None [mkErr ENotFound root 0] (mkLS [] cache0) [] [])
+  | None => Some (mkOut None [mkErr ENotFound root 0] (mkLS [] [] cache0) [] [])
   | Some f =>
       if max_size L <? f_size f
-      then Some (mkOut None [mkErr ETooLarge root 0] (mkLS [] cache0) [] [])
-      else load_wc (fuel_for fs) fs L root (f_dirs f) (mkLS [] cache0)
+      then Some (mkOut None [mkErr ETooLarge root 0] (mkLS [] [] cache0) [] [])
+      else if max_depth L <=? 0
+      then Some (mkOut None [mkErr ETooDeep root 0] (mkLS [] [] cache0) [] [])
+      else match load_wc (fuel_for fs) fs L root (f_dirs f) (mkLS [] [] cache0) with
+           | None => None
+           | Some o => Some (mkOut (Some (w_res o)) (w_errs o) (w_st o) (w_hits o) (w_seen o))
+           end
   end.
 
 (* ---- the loader as a state machine (C11): operations on one shared loader ---- *)
